@@ -1,6 +1,6 @@
 PROP = {
-    "modules": ["Discv5Model.Props.C12", "Discv5Model.Props.C12Handler"],
-    "lemma_modules": ["Discv5Model.Proofs.ServicePolicy", "Discv5Model.Proofs.ServiceVals"],
+    "modules": ["Discv5Model.Props.C12", "Discv5Model.Props.C12Handler", "Discv5Model.Props.C12Discovered"],
+    "lemma_modules": ["Discv5Model.Proofs.ServicePolicy", "Discv5Model.Proofs.ServiceVals", "Discv5Model.Proofs.ServiceDiscovered"],
     "engines": [{"name": "service", "quick": 150, "thorough": 15000}, {"name": "handler", "quick": 40, "thorough": 800}],
     "rule": "service engine, profile C12: one Service (IPv4 / IPv6 / dual stack, accept-all or rejecting table filter, "
             "incoming limit 16 or 2, ENR update on/off) driven by scripted handler events: sessions and explicit adds with every "
@@ -17,6 +17,7 @@ PROP = {
     "engine": "service",
     "design_ref": "DESIGN.md section 5 / C12",
     "technique": "Lean 4 invariant over an executable model of the service's table-affecting handlers + differential correspondence run",
-    "level_text": "Proof: over every service step (sessions, adds, discovered records, pings/pongs, failures, removals, unverifiable reports) every stored and pending value stays contactable in the IP mode, passes the table filter, is filed under its own id and is not the local id (table_policy_inv, table_policy_run); a step enlarges the key set only if it is `established` or `addEnr` (admission_only_by_session_or_add, admission_needs_policy); a record learnt from the network replaces a stored one only for the same id with strictly higher seq that still satisfies the conditions (network_update_rule, discovered_one_rule). The single-stack source-address condition is the handler's verify_enr (C01/C03 engine: `unverifiable` vs `established`), not the service's. Tied to /repo by the service differential run (table compared after every op) and table-policy monitors.",
+    "level_text": "Proof: over every service step (sessions, adds, discovered records, pings/pongs, failures, removals, unverifiable reports) every stored and pending value stays contactable in the IP mode, passes the table filter, is filed under its own id and is not the local id (table_policy_inv, table_policy_run); a step enlarges the key set only if it is `established` or `addEnr` (admission_only_by_session_or_add, admission_needs_policy); a record learnt from the network replaces a stored one only for the same id with strictly higher seq that still satisfies the conditions (network_update_rule, discovered_one_rule). The single-stack source-address condition is the handler's verify_enr (C01/C03 engine: `unverifiable` vs `established`), not the service's. Tied to /repo by the service differential run (table compared after every op) and table-policy monitors."
+                  ' Also (Props/C12Discovered.lean): inside one `discovered` call the stored sequence number of a node never goes backwards at any intermediate point, and a session report that creates or changes an entry stores exactly the reported record.',
     "level_note": "Trusted: Lean kernel, extract.py, harness/driver. The tie model<->code is a sampled differential check of the real Service behind a scripted handler (Discv5::start_scripted). Records are abstract (id, seq, sockets, size, filter verdict); record validity is the enr crate's. Queries are not modelled: which peers a lookup contacts is taken from the run (resolved scripts), the requested distance lists are compared with the model's requestDistances.",
 }
